@@ -8,9 +8,9 @@
    (up to global phase and normalisation), forcing the printed measurement outcomes.
 
    Level(n) selects the operations offered at position n of the circuit:
-     "quick"    all gates x all qubit assignments x angle values QuickTs x both forms,
-                every angle expression on rz, crz (RotationCompiler) and qsystem rz (float(angle)),
-                all measurements
+     "quick"    all gates x all qubit assignments x angle values QuickTs (procedural form) and
+                angle value pi/4 (functional form); every angle expression once, spread over rz,
+                crz (RotationCompiler) and qsystem rz (float(angle)); all measurements
      "full"     the same with angle values -8..8, both forms everywhere, and the angle expressions
                 also on zz_phase and both slots of phased_x
      "core"     all gates/assignments, angle values {1, 2}, procedural form, measurements
@@ -21,10 +21,11 @@ CONSTANTS Depth, Level1, Level2, PrepSet
 VARIABLES prep, slice, ops, st
 vars == <<prep, slice, ops, st>>
 
-QuickTs == {-5, -2, -1, 1, 2, 3, 4, 7}
+QuickTs == {-3, 1, 2, 5}
 Both == {"p", "f"}
 OpSet(name) ==
-    CASE name = "quick" -> GateOps(GateNames, QuickTs, Both) \cup ExprOps({"p"}, FALSE) \cup MeasOps(Both)
+    CASE name = "quick" -> GateOps(GateNames, QuickTs, {"p"}) \cup GateOps(GateNames, {1}, {"f"})
+                           \cup ExprOpsOnce \cup MeasOps(Both)
       [] name = "full"  -> GateOps(GateNames, -8..8, Both) \cup ExprOps(Both, TRUE) \cup MeasOps(Both)
       [] name = "core"  -> GateOps(GateNames, {1, 2}, {"p"}) \cup MeasOps({"p"})
       [] name = "none"  -> {}
